@@ -23,7 +23,8 @@ MANIFEST = {
 MACROS = ["first_sys_same", "first_user_same", "first_sys_other", "first_user_other", "refact_same", "refact_usepr_same", "solve_same",
           "solve_gstrs_same", "destroy_same", "query_new_same", "query_refact_same", "qspace_same", "singular_same", "memfail_same",
           "badarg_same", "gssv_same"]
-PROBES = ["first_x", "first_f", "first_v", "first_x_user", "first_solve_x", "first_solve_f", "first_refact_solve", "first_x_mt"]
+PROBES = ["first_x", "first_f", "first_v", "first_x_user", "first_solve_x", "first_solve_f", "first_refact_solve", "first_x_mt",
+          "query_x", "query_f"]
 
 
 def other_prec(rng, p):
@@ -92,6 +93,9 @@ def gen_probe(rng, name, prec, ienv, slots):
     pat = pl.gen_pattern(rng, n); annz = len(pat["rowind"])
     slots.insert(0, {"sid": 0, "prec": prec, "pat": pat})
     lw = pl.lwork_enough(n, annz, prec, ienv, 4, ienv[0])
+    if name in ("query_x", "query_f"):
+        # a workspace query (lwork = -1) for a matrix never seen before: its answer depends on that matrix and the options only
+        return [dict(op="query", slot=0, api=0 if name == "query_x" else 1, refact=0, nprocs=rng.choice([1, 2, 4]), relax=ienv[1], panel=ienv[0], restore=False)]
     if name == "first_x": return [mk_factor(rng, "first", 0, pat, prec, ienv, 0)]
     if name == "first_f": return [mk_factor(rng, "first", 0, pat, prec, ienv, 1)]
     if name == "first_v": return [mk_factor(rng, "first", 0, pat, prec, ienv, 2)]
